@@ -42,7 +42,7 @@ THRESHOLDS = {
     # --- files
     "roundtrip_loads": 0.5,
     "roundtrip_same_shape": 0.5,
-    "roundtrip_excess_error": 128.0,          # (|loaded - written| - 0.5*10^-precision)_+ / (eps max(|x|, 10^-precision))
+    "roundtrip_excess_error": 64.0,           # (|loaded - written| - 0.5*10^-precision)_+ / (eps max(|x|, 10^-precision))
     "damaged_file_grid_is_valid": 0.5,
 }
 MIN_NONTRIVIAL = {"quick": 60, "thorough": 250}
